@@ -19,6 +19,8 @@ pub struct Faults {
     pub enomem_all: bool,
     /// the next mprotect fails with EACCES
     pub mprotect_fail_next: bool,
+    /// every mprotect touching [lo, hi) fails with EACCES (a page that can never be made writable)
+    pub mprotect_deny: Option<(u64, u64)>,
     pub fired_enomem: u64,
     pub fired_mprotect: u64,
 }
@@ -26,7 +28,7 @@ pub struct Faults {
 thread_local! {
     static ARMED: Cell<bool> = const { Cell::new(false) };
     static LEDGER: RefCell<Vec<NEv>> = const { RefCell::new(Vec::new()) };
-    static FAULTS: RefCell<Faults> = const { RefCell::new(Faults { enomem_all: false, mprotect_fail_next: false, fired_enomem: 0, fired_mprotect: 0 }) };
+    static FAULTS: RefCell<Faults> = const { RefCell::new(Faults { enomem_all: false, mprotect_fail_next: false, mprotect_deny: None, fired_enomem: 0, fired_mprotect: 0 }) };
     static COUNTS: Cell<(u64, u64, u64, u64)> = const { Cell::new((0, 0, 0, 0)) };
 }
 
@@ -161,7 +163,11 @@ pub unsafe extern "C" fn mprotect(addr: *mut libc::c_void, len: libc::size_t, pr
     if armed {
         let inject = FAULTS.with(|f| {
             let mut f = f.borrow_mut();
-            if f.mprotect_fail_next {
+            let denied = match f.mprotect_deny {
+                Some((lo, hi)) => (addr as u64) < hi && (addr as u64 + len as u64) > lo,
+                None => false,
+            };
+            if f.mprotect_fail_next || denied {
                 f.mprotect_fail_next = false;
                 f.fired_mprotect += 1;
                 true
